@@ -51,6 +51,8 @@ PROPOSED_KNOWN = [
      "what": "intConst.binaryOp: & | ^ &^ results are not checked against the 512-bit limit ((-1<<511) ^ (1<<511) accepted; gc: constant overflow)"},
     {"kind": "known", "signature": {"fam": "const", "fail": "crash", "root": "quo", "oc": "complex", "xf64": 0},
      "what": "complexConst.binaryOp division ignores the overflow error of c*c+d*d on integer parts: 1i / (1<<511) dereferences a nil *big.Int and panics in the host"},
+    {"kind": "known", "signature": {"fam": "const", "fail": "crash", "root": "cpl", "ka": "uint"},
+     "what": "constant.go maxUnsigned/maxBigUnsigned tables have no entry for uintptr: ^uintptr(1) panics in the host (index out of range [5] with length 5)"},
     {"kind": "known", "signature": {"fam": "const", "fail": "accepts-invalid", "root": "cpl", "ka": "u.int"},
      "what": "unary ^ on an untyped integer constant is not checked against the 512-bit limit (^(1<<512-1) accepted; gc: constant bitwise complement overflow)"},
 ]
